@@ -1020,6 +1020,43 @@ DRV_OP(single) {
         return std::string();
     });
 }
+// fld <slot> <field> => ok <value>   ONE getter of the entity in the slot, unguarded: what it throws is the answer
+//   any: id name type def created updated | A: dtype shape origin poly label unit dimcount | T: pos ext units | M: units | D: rows cols
+DRV_OP(fld) {
+    if (a.size() != 3) throw ProtoError("fld arity");
+    return guarded([&]() {
+        Ent &h = slot(a[1]); const std::string &f = a[2];
+#define COMMON(x) { if (f == "id") return x.id(); if (f == "name") return hexStr(x.name()); if (f == "type") return hexStr(x.type()); \
+                    if (f == "def") return optS(x.definition()); if (f == "created") return std::to_string((long long) x.createdAt()); \
+                    if (f == "updated") return std::to_string((long long) x.updatedAt()); }
+        switch (h.kind) {
+        case 'B': COMMON(h.b) break; case 'S': COMMON(h.s) break; case 'O': COMMON(h.o) break; case 'G': COMMON(h.g) break;
+        case 'A': COMMON(h.a)
+            if (f == "dtype") return nix::data_type_to_string(h.a.dataType());
+            if (f == "shape") { nix::NDSize s = h.a.dataExtent(); std::vector<std::string> l; for (size_t k = 0; k < s.size(); k++) l.push_back(std::to_string(s[k])); return listTok(l); }
+            if (f == "origin") { auto o = h.a.expansionOrigin(); return o ? f64Tok(*o) : std::string("~"); }
+            if (f == "poly") return dlist(h.a.polynomCoefficients());
+            if (f == "label") return optS(h.a.label());
+            if (f == "unit") return optS(h.a.unit());
+            if (f == "dimcount") return std::to_string(h.a.dimensionCount());
+            break;
+        case 'D': COMMON(h.d)
+            if (f == "rows") return std::to_string(h.d.rows());
+            if (f == "cols") return std::to_string(h.d.columns().size());
+            break;
+        case 'T': COMMON(h.t)
+            if (f == "pos") return dlist(h.t.position());
+            if (f == "ext") return dlist(h.t.extent());
+            if (f == "units") return slist(h.t.units());
+            break;
+        case 'M': COMMON(h.m)
+            if (f == "units") return slist(h.m.units());
+            break;
+        default: break;
+        }
+        throw ProtoError("fld " + a[1] + " " + f);
+    });
+}
 // set <holder> <field> <value|~>
 DRV_OP(set) {
     if (a.size() != 4) throw ProtoError("set arity");
